@@ -3,6 +3,8 @@
 History monitor: invariants evaluated at the client boundary after every operation
 (never inside a dunder: BO.__setitem__ legitimately registers the mapping after
 PUBOMatrix.__setitem__ registered the variable)."""
+import copy
+
 from .. import gen, oracles, ref
 from .. import lib as L
 
@@ -25,6 +27,9 @@ def FLOORS(tier):
     f = {"inv-checks": 20000 if q else 10 ** 6, "refresh-exactness-checks": 800 if q else 30000,
          "observe-forms-checked": 600 if q else 20000, "constraint-ancilla-checks": 150 if q else 5000,
          "observe-with-ancillas": 60 if q else 2000, "op:construct-from-raw": 200 if q else 6000, "op:observe-after-cancel_top": 60 if q else 2000, "observe-stale-with-ancillas": 15 if q else 500, "op:derive-then-constraint": 10 if q else 300}
+    f.update({"untouched-object-checks": 3000 if q else 10 ** 5, "sibling:shares-mapping-dict": 100, "sibling:source-of-copy": 300,
+              "caller-dict-scribbled": 60, "update:same-class-model:into-empty": 20, "update:same-class-model": 60, "update:pairs": 60,
+              "update:other-class-model": 60})
     for t in TYPES:
         f["type:" + t] = 150 if q else 5000
     for o in OPS:
@@ -44,6 +49,14 @@ def bookkeeping(m):
         d["reverse_mapping"] = m.reverse_mapping
     if hasattr(m, "num_ancillas"):
         d["num_ancillas"] = m.num_ancillas
+    return d
+
+
+def frozen(m):
+    """deep copy of everything observable about a model"""
+    d = {"terms": dict(m), "bookkeeping": copy.deepcopy(bookkeeping(m))}
+    if hasattr(m, "constraints"):
+        d["constraints"] = copy.deepcopy({k: [dict(c) for c in v] for k, v in m.constraints.items()})
     return d
 
 
@@ -150,6 +163,8 @@ def case(ctx, rng, idx):
     lineage = set()
     reached2 = False
     after_derive = False
+    siblings = []        # (object nobody edits any more, its frozen observable state, what it is)
+    watched = []         # (caller-owned container handed to the library, its content then, what it is)
     maxd = 2 if deg2 else 3
 
     def rkey(dup=False):
@@ -211,9 +226,18 @@ def case(ctx, rng, idx):
                 perm = list(range(len(vs)))
                 rng.shuffle(perm)
                 if rng.random() < 0.5:
-                    m.set_mapping({v: perm[i] for i, v in enumerate(vs)})
+                    given = {v: perm[i] for i, v in enumerate(vs)}
+                    m.set_mapping(given)
                 else:
-                    m.set_reverse_mapping({perm[i]: v for i, v in enumerate(vs)})
+                    given = {perm[i]: v for i, v in enumerate(vs)}
+                    m.set_reverse_mapping(given)
+                watched.append((given, dict(given), "the dict handed to set_mapping / set_reverse_mapping"))
+                if rng.random() < 0.5:
+                    # the documented use: the same enumeration for a second model (a copy that is never edited again)
+                    sib = T(m)
+                    (sib.set_mapping if set(given) == set(vs) else sib.set_reverse_mapping)(given)
+                    siblings.append((sib, frozen(sib), "a second model given the same mapping dict"))
+                    ctx.cat("sibling:shares-mapping-dict")
                 desc += [perm]
             elif op == "cancel_top":
                 # every term of the variable registered last disappears, the variable stays registered (stale top label)
@@ -267,8 +291,25 @@ def case(ctx, rng, idx):
                 o = gen.rand_terms(rng, labs, maxd, lo=1, hi=3)
                 if rng.random() < 0.3:
                     o[rkey()] = 0
-                desc += [o]
-                m.update(o)
+                how = rng.choice(["dict", "pairs", "same-class-model", "other-class-model"])
+                if rng.random() < 0.3 and len(m):
+                    m.clear()                 # update() into a model that is empty at that moment
+                    lineage = set()
+                    before_keys = set()
+                    snap = {}
+                    how += ":into-empty"
+                desc += [o, how]
+                ctx.cat("update:" + how)
+                if how.startswith("pairs"):
+                    arg = list(o.items())
+                elif how.startswith("same-class-model"):
+                    arg = gen.model_of(T, {k: v for k, v in o.items() if v})
+                elif how.startswith("other-class-model"):
+                    T2 = {"bool": L.PUBO if labelled else L.PUBOMatrix, "spin": L.PUSO if labelled else L.PUSOMatrix}[kind]
+                    arg = gen.model_of(T2, {k: v for k, v in o.items() if v})
+                else:
+                    arg = o
+                m.update(arg)
             elif op == "clear":
                 m.clear()
                 lineage = set()
@@ -356,6 +397,9 @@ def case(ctx, rng, idx):
             if pc and op == "copy" and (new.num_ancillas != m.num_ancillas or new.constraints != m.constraints):
                 ctx.violation("copy:constraints-or-ancillas-lost", "copy num_ancillas=%r (was %r)" % (new.num_ancillas, m.num_ancillas), w)
                 return
+            if len(siblings) < 4:
+                siblings.append((m, frozen(m), "the model a %s was taken from" % op))
+                ctx.cat("sibling:source-of-copy")
             m = new
             if op == "derive":
                 after_derive = True
@@ -376,6 +420,28 @@ def case(ctx, rng, idx):
             e = exact_after_refresh(m, labelled)
             if e:
                 ctx.violation("refresh:" + e[0], "after refresh: %s; bookkeeping %r" % (e, bookkeeping(m)), w)
+                return
+        # ---- objects nobody touched stay as they were ---------------------------------------
+        for sib, fz, what in siblings:
+            ctx.count("untouched-object-checks")
+            now = frozen(sib)
+            if now != fz:
+                ctx.violation("%s:changes-an-untouched-model" % op, "%s changed (%s): %r -> %r" % (what, desc, fz, now), w)
+                return
+        for obj, content, what in watched:
+            ctx.count("untouched-object-checks")
+            if obj != content:
+                ctx.violation("%s:changes-a-caller-owned-dict" % op, "%s changed: %r -> %r" % (what, content, obj), w)
+                return
+        if watched and rng.random() < 0.2:
+            # the caller reuses its dict for something else; the model keeps its own copy
+            obj = watched.pop()[0]
+            bk_before = copy.deepcopy(bookkeeping(m))
+            obj.clear()
+            obj["scribble"] = "x"
+            ctx.cat("caller-dict-scribbled")
+            if bookkeeping(m) != bk_before:
+                ctx.violation("set_mapping:model-aliases-the-callers-dict", "editing the dict that was handed to set_mapping changed the model's bookkeeping from %r to %r" % (bk_before, bookkeeping(m)), w)
                 return
         # ---- invariants at the client boundary ------------------------------------------
         ctx.count("inv-checks")
